@@ -202,6 +202,14 @@ impl ParsedGRL {
     }
 }
 
+#[cfg(rre_verif)]
+impl GRLParser {
+    /// Verification hook: the condition-tree parser applied to a bare when clause.
+    pub fn verif_parse_when_clause(text: &str) -> Result<ConditionGroup> {
+        GRLParser.parse_when_clause(text)
+    }
+}
+
 impl GRLParser {
     /// Parse a single rule from GRL syntax
     ///
